@@ -70,7 +70,7 @@ type Tracker struct {
 	CapFor     func(size int) int // capacity for a requested size (default: size rounded up to 64, at least 64)
 	GrowCap    func(need int) int // capacity after a growth (default: need + need/4 rounded up to 64)
 	MoveOnGrow bool               // a growing Append/Realloc returns a NEW handle and kills the old one
-	Recycle    bool               // Malloc reuses freed buffers (handle + memory) after verifying the poison
+	Recycle    bool               // Malloc reuses freed buffers of the same capacity class (handle + memory) after verifying the poison
 
 	next     int
 	handles  map[*[]byte]*buf
@@ -218,7 +218,7 @@ func (t *Tracker) Malloc(size int) *[]byte {
 	if t.Recycle {
 		for i := len(t.free) - 1; i >= 0; i-- {
 			old := t.free[i]
-			if len(old.cur.mem) >= size {
+			if len(old.cur.mem) == t.capFor(size) { // same size class: capacities stay a function of the size
 				t.free = append(t.free[:i], t.free[i+1:]...)
 				if off := t.poisonIntact(old.cur); off >= 0 {
 					t.report(OracleUseAfterFree, fmt.Sprintf("poison%d", old.id), "buffer #%d was written after it was freed (poison damaged at offset %d, seen on reuse)", old.id, off)
